@@ -276,6 +276,8 @@ pub struct LockSt {
     pub faulted: bool,
     /// the fault fired in an unlock op
     pub unlock_faulted: bool,
+    /// the thread whose operation the (latest) fault fired in
+    pub fault_by: Option<Tid>,
 }
 
 #[derive(Default, Debug, Clone, Serialize, Deserialize)]
@@ -753,6 +755,7 @@ impl Inner {
     }
     fn note_fault(&mut self, t: Tid, lid: Lid, op: RawOp, when: When) {
         self.locks[lid].faulted = true;
+        self.locks[lid].fault_by = Some(t);
         self.faults_by[t] += 1;
         if op.is_release() {
             self.locks[lid].unlock_faulted = true;
